@@ -13,6 +13,153 @@ RULE = ('control-profile generated functions (nested block/loop/if with and with
         'distinct (module, function, host-call trace hash) i.e. distinct executed paths')
 
 
+def scale_modules(rnd, quick):
+    """Programs whose STRUCTURE is large (not their run time): very deep operand stacks, thousands of locals / globals / parameters,
+    dense switches (thousands of nested blocks), long call chains, very long straight-line bodies, deep block nests left by br_table.
+    Each is executed and compared with V8 - the hostile shapes of C10 only check that the translator survives them."""
+    f = 1 if quick else 3
+    T4 = [I32, I64, F32, F64]
+    out = []
+
+    def to_i64(t):
+        return {I32: [('i64.extend_i32_u',)], I64: [], F32: [('i32.reinterpret_f32',), ('i64.extend_i32_u',)], F64: [('i64.reinterpret_f64',)]}[t]
+
+    def from_i32(t, k):
+        """value of type t derived from local 0 (i32) and the constant k, never NaN"""
+        base = [('local.get', 0), ('i32.const', k), ('i32.add',)]
+        return base + {I32: [], I64: [('i64.extend_i32_s',), ('i64.const', 0x100000001), ('i64.mul',)], F32: [('f32.convert_i32_s',)], F64: [('f64.convert_i32_u',)]}[t]
+
+    # 1 deep operand stack
+    n = 3000 * f
+    m = Module()
+    body = [('local.get', 0)]
+    for k in range(1, n + 1):
+        body += [('i32.const', wasm.to_signed((k * 2654435761) & 0xffffffff, 32))] if k % 5 else [('local.get', 0), ('i32.const', k), ('i32.mul',)]
+    for k in range(1, n + 1):
+        body += [(['i32.add', 'i32.xor', 'i32.sub', 'i32.rotl', 'i32.add'][k % 5],)]
+    m.add_func([I32], [I32], [], body, export='f')
+    out.append(('deep-stack-%d' % n, m, [[x] for x in (0, 1, 7, 0xffffffff, 0x80000000, rnd.getrandbits(32))]))
+    # 2 many locals of mixed types
+    n = 3000 * f
+    m = Module()
+    locs = [(1, T4[(i * 7 + i // 3) % 4]) for i in range(n)]
+    body = []
+    for i in range(n):
+        body += from_i32(locs[i][1], i * 3 + 1) + [('local.set', i + 1)]
+    body += [('i64.const', 0)]
+    for i in range(n):
+        body += [('local.get', i + 1)] + to_i64(locs[i][1]) + [('i64.const', 1099511628211), ('i64.mul',), ('i64.xor',)]
+    m.add_func([I32], [I64], locs, body, export='f')
+    out.append(('many-locals-%d' % n, m, [[x] for x in (0, 5, 0x7fffffff, rnd.getrandbits(31))]))
+    # 3 dense switch
+    n = 2000 * f
+    from vlib import hostile
+    m = hostile.dense_switch(n)
+    sel = [0, 1, 2, n // 2, n - 2, n - 1, n, n + 1, 0xffffffff, 0x80000000] + [rnd.randrange(n) for _ in range(20)]
+    out.append(('dense-switch-%d' % n, m, [[x] for x in sel], 'sw'))
+    # 4 many parameters
+    n = 300 * f if quick else 900
+    m = Module()
+    ps = [T4[(i * 5 + i // 7) % 4] for i in range(n)]
+    body = [('i64.const', 7)]
+    for i in range(n):
+        body += [('local.get', i)] + to_i64(ps[i]) + [('i64.const', 1099511628211 + 2 * i), ('i64.mul',), ('i64.xor',)]
+    callee = m.add_func(ps, [I64], [], body)
+    cb = []
+    for i in range(n):
+        cb += from_i32(ps[i], i * 11 + 3)
+    cb += [('call', callee)]
+    m.add_func([I32], [I64], [], cb, export='f')
+    out.append(('many-params-%d' % n, m, [[x] for x in (0, 9, 0xfffffff0, rnd.getrandbits(32))]))
+    # 5 call chain (native recursion depth n)
+    n = 3000 * f
+    m = Module()
+    first = len(m.funcs)
+    for i in range(n):
+        if i == n - 1:
+            m.add_func([I32, I64], [I64], [], [('local.get', 1), ('local.get', 0), ('i64.extend_i32_u',), ('i64.add',)])
+        else:
+            m.add_func([I32, I64], [I64], [], [('local.get', 0), ('i32.const', i), ('i32.add',), ('local.get', 1), ('i64.const', i + 1), ('i64.mul',), ('i64.const', 3), ('i64.add',), ('call', first + i + 1)])
+    m.add_func([I32], [I64], [], [('local.get', 0), ('i64.const', 1), ('call', first)], export='f')
+    out.append(('call-chain-%d' % n, m, [[x] for x in (0, 1, rnd.getrandbits(32))]))
+    # 6 many globals
+    n = 3000 * f
+    m = Module()
+    gts = [T4[(i * 3 + i // 5) % 4] for i in range(n)]
+    for i, t in enumerate(gts):
+        init = {I32: ('i32.const', i), I64: ('i64.const', -i), F32: ('f32.const', wasm.f32_bits(float(i) + 0.5)), F64: ('f64.const', wasm.f64_bits(-float(i) - 0.25))}[t]
+        m.globals.append((t, True, [init]))
+    body = []
+    for i in range(0, n, 2):
+        body += from_i32(gts[i], i + 1) + [('global.set', i)]
+    body += [('i64.const', 0)]
+    for i in range(n):
+        body += [('global.get', i)] + to_i64(gts[i]) + [('i64.const', 1099511628211), ('i64.mul',), ('i64.xor',)]
+    m.add_func([I32], [I64], [], body, export='f')
+    out.append(('many-globals-%d' % n, m, [[x] for x in (0, 3, rnd.getrandbits(32))]))
+    # 7 long straight-line body
+    n = 40000 * f
+    m = Module()
+    body = [('local.get', 0), ('local.set', 1)]
+    for k in range(n):
+        op = ['i32.add', 'i32.xor', 'i32.mul', 'i32.rotl', 'i32.sub'][k % 5]
+        body += [('local.get', 1), ('i32.const', (k * 40503 + 1) & 0x7fffffff), (op,), ('local.set', 1)]
+    body += [('local.get', 1)]
+    m.add_func([I32], [I32], [(1, I32)], body, export='f')
+    out.append(('straight-line-%d' % n, m, [[x] for x in (0, 1, rnd.getrandbits(32))]))
+    # 8 deep nest of value blocks left from every depth by br_table (depth d; the carried value identifies the exit)
+    d = 200
+    m = Module()
+    body = []
+    for i in range(d):
+        body += [('block', I32)]
+    body += [('i32.const', 424242), ('local.get', 0), ('br_table', list(range(d)), d - 1)]
+    for i in range(d):
+        body += [('end',), ('i32.const', i + 1), ('i32.add',)]
+    m.add_func([I32], [I32], [], body, export='f')
+    out.append(('value-block-nest-%d' % d, m, [[x] for x in (0, 1, d // 2, d - 1, d, 0xffffffff)]))
+    return out
+
+
+def scale_part(chk, w2c2, quick):
+    rnd = env.rng('c03-scale')
+    items = scale_modules(rnd, quick)
+
+    def one(ki):
+        k, it = ki
+        tag, m, vectors = it[0], it[1], it[2]
+        fname = it[3] if len(it) > 3 else 'f'
+        b = m.encode()
+        plan = e2e.Plan(m)
+        script = 'I 0\n' + ''.join('c 0 %d %s\n' % (plan.fk(fname), ' '.join(hex(x) for x in v)) for v in vectors)
+        d = env.subdir('c03-scale-%d' % k)
+        st, ref, _ = e2e.run_ref(b, plan, script, d, timeout=600)
+        res = {}
+        if st == 'ok':
+            builds = [('gcc-O1', 'gcc', ['-O1'])] + ([] if quick else [('clang-O1', 'clang', ['-O1']), ('gcc-O0', 'gcc', ['-O0'])])
+            for bt, cc, fl in builds:
+                opts = [[], ['-p'], ['-f', '7', '-t', '4'], ['-g']][(k + len(bt)) % 4]
+                res[bt] = e2e.build_and_run(w2c2, b, plan, script, os.path.join(d, bt), cc=cc, cflags=fl, opts=opts, timeout=900)[:2] + (opts,)
+        shutil.rmtree(d, ignore_errors=True)
+        return tag, b, script, st, ref, res
+
+    for tag, b, script, st, ref, res in env.pmap(one, list(enumerate(items))):
+        files = {'module.wasm': b, 'script.txt': script}
+        if st != 'ok':
+            chk.inconclusive('scale shape %s: reference failed (%s): %s' % (tag, st, str(ref)[:200]))
+            continue
+        chk.observe('scale_shapes_run', tag, 'union')
+        for bt, (cst, out, opts) in res.items():
+            chk.ev(len(ref) - 1)
+            chk.distinct(('scale', tag, bt))
+            if cst != 'ok':
+                chk.violation('C03:scale:%s:%s' % (cst, tag.rsplit('-', 1)[0]), 'scale shape %s (options %s, build %s) failed at %s: %s' % (tag, ' '.join(opts), bt, cst, str(out)[-800:]), files)
+                continue
+            for step, kind, ra, rb, i in diff.compare(ref, out, {}):
+                chk.violation('C03:scale:%s:%s' % (kind, tag.rsplit('-', 1)[0]), 'scale shape %s (options %s, build %s) line %d: reference "%s" vs compiled "%s"' % (tag, ' '.join(opts), bt, i, ra[:200], rb[:200]), files)
+                break
+
+
 def main(chk):
     quick = chk.tier == 'quick'
     w2c2 = env.build_translator('plain')
@@ -87,6 +234,7 @@ def main(chk):
         if k < 2:
             chk.sample({'module': k, 'bytes': len(res.wasm), 'lines': res.ref[1:6]})
         shutil.rmtree(env.subdir('c03-n%d' % k), ignore_errors=True)
+    scale_part(chk, w2c2, quick)
     chk.observe('modules', nmods, 'set')
     chk.observe('max_block_nesting_generated', maxdepth, 'set')
     chk.observe('generator_rejected', rejected, 'set')
